@@ -66,22 +66,27 @@ def build_harness():
 # ----------------------------------------------------------------------------------------------
 # concrete values for the abstract classes
 
-ALGO_NAMES = {0: ["unknown", "Unknown", "0"], 1: ["rsa", "RSA", "Rsa", "1"], 2: ["dsa", "2"], 3: ["ecdsa", "ECDSA", "EcDsa", "3"], 4: ["ed25519", "4"]}
+ALGO_NAMES = {0: ["unknown", "Unknown", "0"], 1: ["rsa", "RSA", "Rsa", "1"], 2: ["dsa", "2"], 3: ["ecdsa", "ECDSA", "EcDsa", "3"], 4: ["ed25519", "4"], 7: ["7"]}
 ALPHABETS = ["abcdefghijklmnopqrstuvwxyz0123456789", "ABCDEFGHIJKLMNOPQRSTUVWXYZ-_.", "\"\\{}[]:,'`", "<>&;|$*?!#%=+~^()",
              "üéñßøåçÆ", "中文日本語한국어", "אבגד مرحبا", "😀🔑", "\u00a0\u2003\u200d\ufeff\u2028", " \t"]
 
 
 def gen_text(rng, legacy=False, filename=False):
-    n = rng.randint(1, 16)
+    n = rng.randint(1, 16) if rng.random() < 0.97 else rng.randint(200, 4000)
     als = [rng.choice(ALPHABETS) for _ in range(rng.randint(1, 3))]
     s = "".join(rng.choice(rng.choice(als)) for _ in range(n))
     if legacy:      # the legacy format cannot carry white space or '@' in a name
         s = "".join(ch for ch in s if not ch.isspace() and ch not in "@\u200d\ufeff\u2028\u00a0\u2003") or "x"
     if filename:
         s = s.replace("/", "_")
+        while len(s.encode("utf-8")) > 200:
+            s = s[:len(s) // 2]
         if s in (".", "..") or s.endswith(".pub"):
             s = "u" + s + "x"
     return s
+
+
+BAD_IPS = ["", "client.example.com", "192.0.2", "192.0.2.256", "fe80::1%eth0", "192.0.2.7/24", "1.2.3.4.5", "0x7f.1", "[::1]", "localhost", "192.0.2.7:22"]
 
 
 def gen_ip(rng, cls, exotic):
@@ -90,12 +95,48 @@ def gen_ip(rng, cls, exotic):
     if cls == "v6":
         return rng.choice(["2001:db8:%x::%x" % (rng.randint(0, 65535), rng.randint(1, 65535)), "::1", "::ffff:192.0.2.9", "fe80::%x" % rng.randint(1, 999)]) if exotic \
             else "2001:db8::%x" % rng.randint(1, 65535)
-    return rng.choice(["", "client.example.com", "192.0.2", "192.0.2.256", "fe80::1%eth0", "192.0.2.7/24", "1.2.3.4.5", "0x7f.1", "[::1]", "localhost", "192.0.2.7:22"])
+    return rng.choice(BAD_IPS)
 
 
-def concretize(sc, rng, exotic=False):
+class Rot:
+    """Round-robin choice per call site: direction A walks through every variant of a class instead of drawing them."""
+    def __init__(self, rng):
+        self.rng, self.n = rng, collections.Counter()
+
+    def choice(self, options, site):
+        options = list(options)
+        k = self.n[site]
+        self.n[site] += 1
+        return options[(k + self.rng_offset(site)) % len(options)]
+
+    def rng_offset(self, site):
+        return (vlib.seed() * 31 + sum(map(ord, site))) % 97
+
+
+# classes with several concrete variants: (dimension, value) -> (call site in concretize, number of variants)
+VARIANTS = {("cmd", "missing"): ("missing", 8), ("cmd", "null"): ("null", 3), ("cmd", "garbage"): ("garbage", 12), ("cmd", "badver"): ("badver", 8),
+            ("conn", "bad"): ("badip", 11), ("pol", "bad"): ("badpol", 7), ("cfile", "badjson"): ("badjson", 7), ("hsec", "absent"): ("habsent", 3),
+            ("hsec", "undecodable"): ("hundec", 3), ("tls", "nocert"): ("nocert", 2), ("tls", "noca"): ("noca", 2), ("sock", "unset"): ("sockvar", 3)}
+
+
+def variant_site(sc):
+    """(site, n) when the scenario is the all-good base except for ONE dimension whose class has several concrete variants."""
+    diff = [k for k in MCBASE if sc.get(k) != MCBASE[k]]
+    if len(diff) == 1 and (diff[0], sc[diff[0]]) in VARIANTS:
+        return VARIANTS[(diff[0], sc[diff[0]])]
+    return None
+
+
+def concretize(sc, rng, exotic=False, rot=None, force=None):
     """abstract scenario -> (scenario record for the trace, concrete process inputs)"""
     sc = json.loads(json.dumps(sc))
+
+    def var(options, site):        # a variant of a class: drawn (B), walked through or forced (A)
+        if force and site in force:
+            if len(options) != dict(VARIANTS.values())[site]:
+                raise NoVerdict("internal: %d variants at site %s" % (len(options), site))
+            return options[force[site]]
+        return rng.choice(options) if exotic or rot is None else rot.choice(options, site)
     legacy = sc["cmd"] == "legacy"
     if exotic:
         ln, ru, rh = gen_text(rng, filename=True), gen_text(rng, legacy), gen_text(rng, legacy)
@@ -138,22 +179,22 @@ def concretize(sc, rng, exotic=False):
     elif cmd == "legacy":
         cmdline = legacy_line(version=(None if rng.random() < 0.2 else ver), extra=rng.choice([(), ("privKeyNeeded",), ("Touch2SSH=false",)]))
     elif cmd == "missing":
-        cmdline = rng.choice([lambda: json.dumps(jobj(username=None), ensure_ascii=asc), lambda: json.dumps(jobj(hostname=None), ensure_ascii=asc),
-                              lambda: json.dumps(jobj(sshClientVersion=None), ensure_ascii=asc), lambda: json.dumps(jobj(hostname=""), ensure_ascii=asc),
-                              lambda: "{}", lambda: legacy_line(req=None), lambda: legacy_line(req=ru), lambda: legacy_line(req="%s@%s@%s" % (ru, rh, rh))])()
+        cmdline = var([lambda: json.dumps(jobj(username=None), ensure_ascii=asc), lambda: json.dumps(jobj(hostname=None), ensure_ascii=asc),
+                       lambda: json.dumps(jobj(sshClientVersion=None), ensure_ascii=asc), lambda: json.dumps(jobj(hostname=""), ensure_ascii=asc),
+                       lambda: "{}", lambda: legacy_line(req=None), lambda: legacy_line(req=ru), lambda: legacy_line(req="%s@%s@%s" % (ru, rh, rh))], "missing")()
     elif cmd == "null":
-        cmdline = rng.choice(["null", " null", "null\n"])
+        cmdline = var(["null", " null", "null\n"], "null")
     elif cmd == "garbage":
-        cmdline = rng.choice(["", "{", "[1,2]", "\"text\"", "42", "true", "hello world", "{\"username\": 5}", "{\"username\":\"u\",\"hostname\":\"h\",\"sshClientVersion\":\"8.1\"",
-                              None, "IFVer=6 HardKey=true", "\u00ff\u00fe"])
+        cmdline = var(["", "{", "[1,2]", "\"text\"", "42", "true", "hello world", "{\"username\": 5}", "{\"username\":\"u\",\"hostname\":\"h\",\"sshClientVersion\":\"8.1\"",
+                       None, "IFVer=6 HardKey=true", "\u00ff\u00fe"], "garbage")
     elif cmd == "badver":
-        bad = rng.choice(["8", "abc", "8.1p1", "8.99999", "-1.0", " 8.1", "8.1 ", "8..1"])
+        bad = var(["8", "abc", "8.1p1", "8.99999", "-1.0", " 8.1", "8.1 ", "8..1"], "badver")
         cmdline = json.dumps(jobj(sshClientVersion=bad), ensure_ascii=asc) if rng.random() < 0.6 or " " in bad else legacy_line(version=bad)
     else:
         raise NoVerdict("unknown command class %r" % cmd)
 
     logname = ln if sc["lnset"] else rng.choice(["", None])
-    ip = gen_ip(rng, sc["conn"], exotic)
+    ip = gen_ip(rng, sc["conn"], exotic) if sc["conn"] != "bad" else var(BAD_IPS, "badip")
     if sc["conn"] == "bad" and rng.random() < 0.15:
         sshconn, first = None, ""
     else:
@@ -162,8 +203,8 @@ def concretize(sc, rng, exotic=False):
             sshconn = " " + sshconn.lstrip()          # leading blank: the first field is empty
         first = sshconn.split(" ")[0]
 
-    pol = sc["pol"] if sc["pol"] != "bad" else rng.choice(["nons", "NS", "NONSX", "", "NSOK!", "NoNs", "OK"])
-    hname = "paranoids.regular" if not exotic or rng.random() < 0.7 else gen_text(rng, legacy=True)
+    pol = sc["pol"] if sc["pol"] != "bad" else var(["nons", "NS", "NONSX", "", "NSOK!", "NoNs", "OK"], "badpol")
+    hname = rng.choice(["paranoids.regular", "ALL_MODULES"]) if not exotic or rng.random() < 0.7 else gen_text(rng, legacy=True)
     a0 = rng.choice(["gensign", "/usr/bin/gensign", "-gensign"])
     n = sc["ntok"]
     if n == 3:
@@ -194,18 +235,19 @@ def concretize(sc, rng, exotic=False):
     for a in sc["ids"]:
         kidmap[rng.choice(ALGO_NAMES[a]) if exotic else ALGO_NAMES[a][0]] = "slot-%d" % a
     conc = {"cmdline": cmdline, "logname": logname, "sshconn": sshconn, "argv": argv, "kidmap": kidmap,
-            "lnfile": ln if sc["lnset"] else "", "hvar": "", "tvar": "", "badjson": "", "rt": 20 if sc["rt"] == "normal" else 0,
-            "code": rng.randint(1, 16) if exotic else 13, "extra": {}}
+            "lnfile": ln if sc["lnset"] else "", "hvar": "", "tvar": "", "badjson": "", "rt": {"normal": 20, "default": 0, "tight": 1}[sc["rt"]],
+            "code": rng.randint(1, 16) if exotic else 13, "extra": {},
+            "ptt": "2s" if any(e["out"] == "hang" for e in sc["eps"]) else "5s", "sockvar": var(["unset", "empty", "blank"], "sockvar")}
     if sc["hsec"] == "absent":
-        conc["hvar"] = rng.choice(["nokey", "emptymap", "null"])
+        conc["hvar"] = var(["nokey", "emptymap", "null"], "habsent")
     elif sc["hsec"] == "undecodable":
-        conc["hvar"] = rng.choice(["val_string", "kid_badalgo", "dir_list"])
+        conc["hvar"] = var(["val_string", "kid_badalgo", "dir_list"], "hundec")
     if sc["tls"] == "nocert":
-        conc["tvar"] = rng.choice(["cert", "key"])
+        conc["tvar"] = var(["cert", "key"], "nocert")
     elif sc["tls"] == "noca":
-        conc["tvar"] = rng.choice(["missing", "garbage"])
+        conc["tvar"] = var(["missing", "garbage"], "noca")
     if sc["cfile"] == "badjson":
-        conc["badjson"] = rng.choice(["", "{", "{\"handlers\": [1,2]}", "not json at all", "{\"request_timeout\": \"soon\"}", "[]", "{\"signer\": 7}"])
+        conc["badjson"] = var(["", "{", "{\"handlers\": [1,2]}", "not json at all", "{\"request_timeout\": \"soon\"}", "[]", "{\"signer\": 7}"], "badjson")
     if exotic and rng.random() < 0.3:
         conc["extra"] = {"HOME": "/nonexistent", "LANG": "C.UTF-8", "USER": gen_text(rng, legacy=True)}
     sc["lnv"] = hx(ln) if sc["lnset"] else ""
@@ -217,7 +259,12 @@ EPS_POOL = [{"id": i, "out": "sign", "k": k} for i in ("genuine", "foreign", "se
            [{"id": i, "out": o, "k": 0} for i in ("genuine", "foreign", "selfsigned", "hosttrusted") for o in ("rpc", "unparsable")]
 BASE = {"cmd": "json", "hard": False, "algo": 1, "lnset": True, "conn": "v4", "pol": "NONS", "ntok": 3, "sock": "ok", "logf": "ok", "cfile": "ok",
         "hsec": "present", "ids": [0, 1, 3], "val": 600, "eps": [{"id": "genuine", "out": "sign", "k": 1}], "epform": "list", "tls": "ok", "rt": "normal",
-        "dir": {"lp": "U", "lb": "none"}, "pa": "user", "ans": "honest", "die": 0, "lnv": "", "ru": "", "rh": "", "ip": "", "tid": ""}
+        "dir": {"lp": "U", "lb": "none"}, "pa": "user", "ans": "honest", "die": 0, "dk": "close", "lnv": "", "ru": "", "rh": "", "ip": "", "tid": ""}
+
+
+MCBASE = dict(BASE, ids=[0, 1, 3])        # Base of MCSystem.tla
+for _k in ("lnv", "ru", "rh", "ip", "tid"):
+    del MCBASE[_k]
 
 
 def random_scenario(rng, pa):
@@ -226,7 +273,7 @@ def random_scenario(rng, pa):
     s["pa"] = pa
     held = "O" if pa == "nokey" else "U"
     s["cmd"] = rng.choice(["json", "json", "legacy"])
-    s["algo"] = 0 if s["cmd"] != "json" else rng.choice([0, 1, 1, 3, 3, 2, 4])
+    s["algo"] = 0 if s["cmd"] != "json" else rng.choice([0, 1, 1, 3, 3, 2, 4, 7])
     s["conn"] = rng.choice(["v4", "v6"])
     s["ntok"] = rng.choice([3, 3, 4, 5, 5, 6])
     s["ids"] = rng.choice([[0, 1, 2, 3, 4], [0, 1, 2, 3, 4], sorted({s["algo"], 3}), [s["algo"]]])
@@ -255,7 +302,7 @@ def random_scenario(rng, pa):
             lambda: s.update(cfile=rng.choice(["missing", "badjson"])), lambda: s.update(hsec=rng.choice(["absent", "undecodable", "unknownonly"])),
             lambda: s.update(ids=[a for a in [0, 1, 2, 3, 4] if a != s["algo"]][:rng.randint(0, 4)]),
             lambda: s.update(tls=rng.choice(["nocert", "noca"])), lambda: s.update(ans=rng.choice(["otherkey", "fail", "close", "wrongkind"])),
-            lambda: s.update(die=rng.randint(1, 8)), lambda: s.update(die=rng.randint(2, 7))]
+            lambda: s.update(die=rng.randint(1, 8), dk=rng.choice(["close", "fail"])), lambda: s.update(die=rng.randint(2, 7), dk=rng.choice(["close", "fail"]))]
     x = rng.random()
     for _ in range(0 if x < 0.5 else 1 if x < 0.88 else 2):
         rng.choice(devs)()
@@ -437,10 +484,17 @@ def run(prop, tier):
     gensign = build_gensign(os.path.join(vlib.run_root(PROP), "bin"))
     binp = build_harness()
     cases, model_of = [], {}
+    rot = Rot(rng)
     for i, (k, alts) in enumerate(expect.items()):
-        run_ = concretize(alts[0]["sc"], rng, exotic=False)
+        run_ = concretize(alts[0]["sc"], rng, exotic=False, rot=rot)
         cases.append({"id": "a%d" % i, "pa": alts[0]["sc"]["pa"], "runs": [run_]})
         model_of["a%d" % i] = alts
+        vs = variant_site(alts[0]["sc"])
+        if vs:      # every concrete variant of the one deviating class, everything else good
+            for v in range(vs[1]):
+                cid = "a%dv%d" % (i, v)
+                cases.append({"id": cid, "pa": alts[0]["sc"]["pa"], "runs": [concretize(alts[0]["sc"], rng, exotic=False, rot=rot, force={vs[0]: v})]})
+                model_of[cid] = alts
     nrand = conf["nrand"]
     for i in range(nrand):
         cases.append(random_case(rng, i))
@@ -479,7 +533,7 @@ def run(prop, tier):
         samples.append([{"scenario": key_of(s), "argv": (s.get("info") or {}).get("argv"), "csrs_at_endpoints": [len(x) for x in s["e"]["r"]["recv"]],
                          "post": sorted(x["t"] + "/" + x["lb"] + "/" + x["cls"] for x in s["post"]["ag"])} for s in t[1:]])
     cov = {"states": states, "transitions": trans, "depth": depth, "traces_validated_against_impl": len(traces), "samples": samples,
-           "exhaustive": True, "model_cfg": cfg, "exported_executions": len(exported), "replayed_scenarios_A": len(model_of),
+           "exhaustive": True, "model_cfg": cfg, "exported_executions": len(exported), "replayed_scenarios_A": len(expect), "replayed_cases_A": len(model_of),
            "random_cases_B": nrand, "random_executions_B": nruns - len(model_of), "evaluations": nruns * len(PROPS),
            "distinct_nontrivial": len(labels), "exit_status_counts": summ.get("exits"), "spec_drift": len(drift),
            "discarded_after_reexecution": discarded, "zero_coverage_actions": vacuous,
